@@ -1,8 +1,10 @@
 package main
 
 import (
+	"bytes"
 	"encoding/json"
 	"fmt"
+	"io"
 	"os"
 	"path/filepath"
 	"regexp"
@@ -12,6 +14,7 @@ import (
 	"testing"
 	"time"
 
+	"github.com/tsenart/vegeta/v12/internal/zzverif/vgen"
 	"github.com/tsenart/vegeta/v12/internal/zzverif/vh"
 	vegeta "github.com/tsenart/vegeta/v12/lib"
 	"pgregory.net/rapid"
@@ -27,6 +30,9 @@ type c12Cmd struct {
 	Lat     []int64 // latencies >= 0
 	Via     string  // "hist[]" (old notation in -type), "buckets+hist", "buckets+json"
 	Spacing []int   // blanks before each bound in the specification
+	// Pauses != nil: the results arrive through a pipe whose writer pauses after these records while
+	// the command runs with -every=1ms (periodic reports are written in between; the last one counts)
+	Pauses []int `json:",omitempty"`
 }
 
 var c12CmdRow = regexp.MustCompile(`^\[(\S+),\s+(\S+)\]\s+(\d+)\s+`)
@@ -47,6 +53,21 @@ func runC12Cmd(c c12Cmd) error {
 	in, err := writeResults(dir, "in.gob", "gob", rs)
 	if err != nil {
 		return err
+	}
+	every := time.Duration(0)
+	if len(c.Pauses) > 0 {
+		data, ends, err := vgen.EncodeAll(vgen.CodecByName("gob"), rs)
+		if err != nil {
+			return err
+		}
+		var at []int
+		for _, p := range c.Pauses {
+			at = append(at, ends[p%len(ends)])
+		}
+		if in, err = slowPipe(dir, "in.pipe", data, at, 4*time.Millisecond); err != nil {
+			return err
+		}
+		every = time.Millisecond
 	}
 	var sb strings.Builder
 	sb.WriteString("[")
@@ -73,7 +94,7 @@ func runC12Cmd(c c12Cmd) error {
 	}
 	out := filepath.Join(dir, "report")
 	var rerr error
-	if perr := vh.Try(func() { rerr = report([]string{in}, typ, out, 0, buckets) }); perr != nil {
+	if perr := vh.Try(func() { rerr = report([]string{in}, typ, out, every, buckets) }); perr != nil {
 		return fmt.Errorf("report -type=%q -buckets=%q panics: %v", typ, buckets, perr)
 	}
 	if rerr != nil {
@@ -93,12 +114,29 @@ func runC12Cmd(c c12Cmd) error {
 		want[sort.Search(len(bounds), func(i int) bool { return bounds[i] > l })-1]++
 	}
 	what := fmt.Sprintf("report -type=%q -buckets=%q over %d results", typ, buckets, len(c.Lat))
+	if every > 0 {
+		what = fmt.Sprintf("report -every=%s -type=%q -buckets=%q over %d results arriving through a pipe that pauses after records %v (last report written)", every, typ, buckets, len(c.Lat), c.Pauses)
+	}
 	if c.Via == "buckets+json" {
 		var doc struct {
 			Buckets map[string]uint64 `json:"buckets"`
 		}
-		if err := json.Unmarshal(b, &doc); err != nil {
-			return fmt.Errorf("%s: output does not parse: %v", what, err)
+		// (with -every the file holds every periodic report; the last one is the final report)
+		jd := json.NewDecoder(bytes.NewReader(b))
+		ndocs := 0
+		for {
+			next := doc
+			next.Buckets = nil
+			if err := jd.Decode(&next); err == io.EOF {
+				break
+			} else if err != nil {
+				return fmt.Errorf("%s: output does not parse: %v", what, err)
+			}
+			doc = next
+			ndocs++
+		}
+		if ndocs == 0 || (every == 0 && ndocs != 1) {
+			return fmt.Errorf("%s: the output holds %d reports", what, ndocs)
 		}
 		if len(doc.Buckets) != len(bounds) {
 			return fmt.Errorf("%s: %d buckets in the JSON report, want %d (%v)", what, len(doc.Buckets), len(bounds), bounds)
@@ -111,6 +149,15 @@ func runC12Cmd(c c12Cmd) error {
 		return nil
 	}
 	lines := strings.Split(strings.TrimRight(string(b), "\n"), "\n")
+	if every > 0 {
+		// keep the last report: from the last header line on
+		for i := len(lines) - 1; i >= 0; i-- {
+			if strings.HasPrefix(lines[i], "Bucket") {
+				lines = lines[i:]
+				break
+			}
+		}
+	}
 	if len(lines)-1 != len(bounds) {
 		return fmt.Errorf("%s: %d bucket rows, want %d:\n%s", what, len(lines)-1, len(bounds), b)
 	}
@@ -154,9 +201,12 @@ func TestC12ReportCmd(t *testing.T) {
 		if c.Via == "hist[]" {
 			c.Spacing = []int{0} // the old notation is one shell word in -type
 		}
+		if rapid.IntRange(0, 5).Draw(t, "periodic") == 0 {
+			c.Pauses = rapid.SliceOfN(rapid.IntRange(0, len(c.Lat)-1), 1, 3).Draw(t, "pauses")
+		}
 		nt := len(c.Bounds) >= 3 && onBound
 		sig, _ := json.Marshal(c)
-		vh.Case("C12.reportcmd", string(sig), nt, "via:"+c.Via)
+		vh.Case("C12.reportcmd", string(sig), nt, "via:"+c.Via, fmt.Sprintf("periodic:%v", len(c.Pauses) > 0))
 		vh.Sample("C12.reportcmd", nt, c)
 		if err := runC12Cmd(c); err != nil {
 			vh.Fail(t, "C12", "C12.reportcmd", c, err)
